@@ -1242,6 +1242,116 @@ pub fn prepare_queue_cleanup(
         .collect()
 }
 
+/// Verification hooks (cargo feature `verif`, off by default): the autoalloc state machine
+/// behind a thin public wrapper, so that an in-process harness can drive the real
+/// `handle_message` / `perform_submits` / `do_periodic_update` against an injected
+/// `QueueHandler`. Nothing in here is used by production code.
+#[cfg(feature = "verif")]
+pub mod verif {
+    use super::*;
+
+    pub use crate::server::autoalloc::queue::{
+        AllocationExternalStatus, AllocationStatusMap, AllocationSubmissionResult, QueueHandler,
+        SubmitMode,
+    };
+    pub use crate::server::autoalloc::service::AutoAllocMessage;
+    pub use crate::server::autoalloc::state::{AllocationWorkdir, RateLimiter};
+
+    pub struct QueueSnapshot {
+        pub id: QueueId,
+        pub paused: bool,
+        pub params: QueueParameters,
+        pub allocations: Vec<Allocation>,
+    }
+
+    pub struct AutoAllocSim {
+        state: AutoAllocState,
+        senders: AutoallocSenders,
+    }
+
+    impl AutoAllocSim {
+        pub fn new(server: ServerRef, events: EventStreamer, queue_id_initial_value: u32) -> Self {
+            AutoAllocSim {
+                state: AutoAllocState::new(queue_id_initial_value),
+                senders: AutoallocSenders { server, events },
+            }
+        }
+
+        /// Mirrors `create_queue` with an injected handler and rate limiter
+        pub fn add_queue(
+            &mut self,
+            params: QueueParameters,
+            handler: Box<dyn QueueHandler>,
+            limiter: RateLimiter,
+            worker_resources: Option<ResourceDescriptor>,
+        ) -> QueueId {
+            let name = params.name.clone();
+            let queue = AllocationQueue::new(
+                QueueInfo::new(params.clone()),
+                name,
+                handler,
+                limiter,
+                worker_resources,
+            );
+            let id = self.state.add_queue(queue, None);
+            self.senders.events.on_allocation_queue_created(id, params);
+            id
+        }
+
+        pub fn production_rate_limiter() -> RateLimiter {
+            create_rate_limiter()
+        }
+
+        pub async fn handle_message(&mut self, message: AutoAllocMessage) -> bool {
+            handle_message(&mut self.state, &self.senders.events, message).await
+        }
+
+        /// One scheduling tick of `autoalloc_process`
+        pub async fn perform_submits(&mut self) -> anyhow::Result<()> {
+            if self.state.has_active_queues() {
+                perform_submits(&mut self.state, &self.senders).await
+            } else {
+                Ok(())
+            }
+        }
+
+        /// One periodic update of `autoalloc_process`
+        pub async fn periodic_update(&mut self) {
+            if self.state.has_active_queues() {
+                do_periodic_update(&self.senders, &mut self.state).await;
+            }
+        }
+
+        pub fn snapshot(&self) -> Vec<QueueSnapshot> {
+            let mut queues: Vec<QueueSnapshot> = self
+                .state
+                .queues()
+                .map(|(id, queue)| {
+                    let mut allocations: Vec<Allocation> =
+                        queue.all_allocations().cloned().collect();
+                    allocations.sort_by(|a, b| a.id.cmp(&b.id));
+                    QueueSnapshot {
+                        id,
+                        paused: !queue.state().is_active(),
+                        params: queue.info().params().clone(),
+                        allocations,
+                    }
+                })
+                .collect();
+            queues.sort_by_key(|q| q.id);
+            queues
+        }
+
+        pub fn queue_of_allocation(&self, allocation_id: &str) -> Option<QueueId> {
+            self.state.get_queue_id_by_allocation(allocation_id)
+        }
+
+        pub fn get_allocation(&self, allocation_id: &str) -> Option<Allocation> {
+            self.state.get_allocation_by_id(allocation_id)
+        }
+    }
+}
+
 #[cfg(test)]
 mod tests {
     use std::future::Future;
